@@ -93,6 +93,8 @@ class SmtLibExecutionCache(object):
 
     def __init__(self, env: Environment):
         self.substitute = env.substituter.substitute
+        self.get_type = env.stc.get_type
+        self.mgr = env.formula_manager
         self.keys: Dict[str, List[Union[str, Callable, PySMTType, FNode, _TypeDecl]]] = {}
         self.definitions: Dict[str, Tuple[List[Union[Any, FNode]], Union[PySMTType, FNode, PartialType, str]]] = {}
         self.annotations = Annotations()
@@ -115,7 +117,18 @@ class SmtLibExecutionCache(object):
     def _define_adapter(self, formal_parameters: List[FNode], expression: FNode) -> Callable:
         def res(*actual_parameters):
             assert len(formal_parameters) == len(actual_parameters)
-            submap = dict(zip(formal_parameters, actual_parameters))
+            actuals = []
+            for formal, actual in zip(formal_parameters, actual_parameters):
+                if formal.symbol_type().is_real_type() and \
+                   actual.is_int_constant():
+                    # As elsewhere, integer constants are read as reals
+                    actual = self.mgr.Real(actual.constant_value())
+                if self.get_type(actual) != formal.symbol_type():
+                    raise PysmtTypeError("Argument '%s' of a defined function "
+                                         "must have type %s" %
+                                         (actual, formal.symbol_type()))
+                actuals.append(actual)
+            submap = dict(zip(formal_parameters, actuals))
             return self.substitute(expression, submap)
         return res
 
